@@ -28,7 +28,7 @@ SHARDS = {"quick": 8, "thorough": 16}
 PROFILE = gen.Profile(
     ifuns=False, bounded=False, invariants=False, undefined=False, max_fluents=4, max_objects=3, max_arity=1, quantifiers=False,
     nested_fluent_args=False, forall_effects=False, division=False, cond_effects=False, temporal_delays=True, timed_items=True,
-    int_params=True, fixed_durations_only=True, dur_fluents_grow=False, fluent_kinds=["bool", "bool", "int", "real"],
+    int_params=True, fixed_durations_only=False, dur_fluents_grow=False, fluent_kinds=["bool", "bool", "int", "real"],
 )
 
 
@@ -37,7 +37,7 @@ def cases(draw):
     g = gen.TGen(draw, PROFILE)
     p = g.temporal_problem()
     p["timed_goals"] = []
-    steps = [{"a": g.i(0, 10), "args": g.i(0, 20), "start": g.pick([0, "1/2", 1, 1, "3/2", 2, 3, "7/2", 5])} for _ in range(g.i(1, 5))]
+    steps = [{"a": g.i(0, 10), "args": g.i(0, 20), "start": g.pick([0, "1/2", 1, 1, "3/2", 2, 3, "7/2", 5]), "dsel": g.i(0, 2)} for _ in range(g.i(1, 5))]
     return {"problem": p, "plan": steps, "use_counter": g.b(0.5)}
 
 
@@ -72,10 +72,28 @@ def check(ctx, case):
         d = None
         if isinstance(a, DurativeAction):
             d = fixed_duration(ref, a, args)
-            if not isinstance(d, Fraction) or d <= 0:
+            pb = ref.binding(a, args)
+            hi = ref.E.value(a.duration.upper, ref.initial_state(), pb, {})
+            if not isinstance(d, Fraction) or d <= 0 or not isinstance(hi, Fraction):
                 raise Abstain("non-positive-duration")
+            if hi != d:
+                # variable duration: a value inside the interval (the compiled end event exists only here)
+                d = [d + (hi - d) / 4, (d + hi) / 2, hi - (hi - d) / 4][st_.get("dsel", 0) % 3]
+                ctx.cls("variable-duration-instance")
+            # every end-relative timing of the action must fall after its start for this duration
+            ends = [t for t in list(a.effects) + [x for iv in a.conditions for x in (iv.lower, iv.upper)] if t.is_from_end()]
+            if any(d + Fraction(t.delay) <= 0 for t in ends):
+                raise Abstain("end-relative-timing-before-start")
         plan.append((Fraction(st_["start"]), a, args, d))
     desc = [[str(s), a.name, list(map(str, args)), None if d is None else str(d)] for s, a, args, d in plan]
+    for i, (s1, a1, g1, d1) in enumerate(plan):
+        for j, (s2, a2, g2, d2) in enumerate(plan):
+            if i < j and d1 is not None and a1 is a2 and g1 == g2 and a1.duration.lower != a1.duration.upper:
+                if s1 <= s2 <= s1 + d1 or s2 <= s1 <= s2 + d2:
+                    # the statement is about fixed-duration actions; overlapping copies of one
+                    # variable-duration ground action have ambiguous end events (and are not legal
+                    # without self-overlapping)
+                    raise Abstain("self-overlapping-variable-duration")
     ttp = TimeTriggeredPlan([(s, ActionInstance(a, params_fnodes(problem, em, a, args)), d) for s, a, args, d in plan], b.env)
     try:
         fwd = res.plan_forward_conversion(ttp)
